@@ -708,4 +708,7 @@ def run(P, R, tier):
     c13.numeric_rules(P, R, c13.scope(P), prefix='C08')
     # ... and it is parsed with a NULL prefix-length output, which the parser must treat as optional everywhere
     c13.optional_outputs(P, R, c13.scope(P), 'C08.NULL.3')
+    # every complete line that was read is dispatched in this wake-up: none dropped, none left waiting for unrelated traffic
+    from . import c03 as _c03
+    _c03.reader_drains(P, R, 'C08.MPT.5')
     return EXPLANATION, ASSUMPTIONS
